@@ -112,9 +112,15 @@ def ROut.cr (o : ROut) : ROut :=
   | [] => o
   | c :: _ => if c == '\n' then o else { o with rev := '\n' :: o.rev }
 
+/-- an HTML attribute ` name="value"`; the value is escaped.  Every attribute the renderer writes — `href`,
+    `src`, `title`, `class`, `start` — is written through this function; the only other attribute, `alt`, is
+    written piecewise while an image description is rendered (`ROut.img > 0`), every piece escaped. -/
+def attr (name : String) (value : List Char) : List Char :=
+  ' ' :: name.toList ++ "=\"".toList ++ escHtml value ++ ['"']
+
 def titleAttr (t : Option (List Char)) : List Char :=
   match t with
-  | some t => " title=\"".toList ++ escHtml t ++ ['"']
+  | some t => attr "title" t
   | none => []
 
 def renderInline (o : ROut) : IEv → ROut
@@ -122,21 +128,21 @@ def renderInline (o : ROut) : IEv → ROut
   | .softbreak _ => o.lit ['\n']
   | .hardbreak _ => if o.img > 0 then o.cr else o.str "<br />\n"
   | .code s _ => if o.img > 0 then o.lit (escHtml s) else ((o.str "<code>").lit (escHtml s)).str "</code>"
-  | .rawHtml s _ => o.lit s
+  | .rawHtml s _ => if o.img > 0 then o.lit (escHtml s) else o.lit s
   | .autolink d t _ =>
     if o.img > 0 then o.lit (escHtml t)
-    else ((((o.str "<a href=\"").lit (escHtml (escHref d))).str "\">").lit (escHtml t)).str "</a>"
+    else ((((o.str "<a").lit (attr "href" (escHref d))).str ">").lit (escHtml t)).str "</a>"
   | .openEmph _ => if o.img > 0 then o else o.str "<em>"
   | .closeEmph => if o.img > 0 then o else o.str "</em>"
   | .openStrong _ => if o.img > 0 then o else o.str "<strong>"
   | .closeStrong => if o.img > 0 then o else o.str "</strong>"
   | .openLink d t _ =>
     if o.img > 0 then o
-    else (((o.str "<a href=\"").lit (escHtml (escHref d))).str "\"").lit (titleAttr t) |>.str ">"
+    else (((o.str "<a").lit (attr "href" (escHref d))).lit (titleAttr t)).str ">"
   | .closeLink => if o.img > 0 then o else o.str "</a>"
   | .openImage d t _ =>
     if o.img > 0 then { o with img := o.img + 1 }
-    else { ((o.str "<img src=\"").lit (escHtml (escHref d))).str "\" alt=\"" with img := 1, imgTitle := t }
+    else { ((o.str "<img").lit (attr "src" (escHref d))).str " alt=\"" with img := 1, imgTitle := t }
   | .closeImage =>
     if o.img > 1 then { o with img := o.img - 1 }
     else if o.img == 1 then { ((o.str "\"").lit (titleAttr o.imgTitle)).str " />" with img := 0, imgTitle := none }
@@ -160,7 +166,7 @@ def renderBlocks (refs : RefMap) (loose : List (Nat × Bool)) : List Ev → List
       let tight := !((loose.lookup next).getD false)
       let o := o.cr
       let o := if ord then
-          (if start == 1 then o.str "<ol>" else ((o.str "<ol start=\"").lit (natChars start)).str "\">")
+          (if start == 1 then o.str "<ol>" else ((o.str "<ol").lit (attr "start" (natChars start))).str ">")
         else o.str "<ul>"
       renderBlocks refs loose es (⟨false, tight⟩ :: st) (next + 1) o.cr
     | .item =>
@@ -185,7 +191,7 @@ def renderBlocks (refs : RefMap) (loose : List (Nat × Bool)) : List Ev → List
       | .fenced info =>
         let word := (unescape info).takeWhile (fun c => !isWsChar c)
         let o := o.cr.str "<pre><code"
-        let o := if word.isEmpty then o else ((o.str " class=\"language-").lit (escHtml word)).str "\""
+        let o := if word.isEmpty then o else o.lit (attr "class" ("language-".toList ++ word))
         (((o.str ">").lit (codeLines payload)).str "</code></pre>").cr
       | .indented => ((o.cr.str "<pre><code>").lit (codeLines payload)).str "</code></pre>" |>.cr
       | .html => (o.cr.lit (joinLines (payload.map (·.text)))).cr
@@ -197,8 +203,11 @@ def renderDoc (evs : List Ev) : List Char :=
   let loose := looseness evs [] 0
   (renderBlocks refs loose evs [] 0 ⟨[], 0, none⟩).rev.reverse
 
+/-- HTML of a document under a reading of the specification. -/
+def htmlR (rd : Reading) (doc : List Char) : List Char := renderDoc (eventsR rd (docLines doc))
+
 /-- HTML of a document. -/
-def html (doc : List Char) : List Char := renderDoc (events (docLines doc))
+def html (doc : List Char) : List Char := htmlR {} doc
 
 /-! ## scope of the current stage -/
 /-- characters for which the model's tables (white space, punctuation, case folding) are exact
